@@ -74,6 +74,13 @@ def block_fn(M, module, other, extra):
 
 
 class ContractionAlgebra:
+    fp = True  # cross-check: the same contract on the unmodified float64 code at sampled inputs (bounded)
+
+    def fp_shapes(self, tier):
+        sh = self.shapes(tier)
+        step = max(1, len(sh) // (6 if tier == "quick" else 24))
+        return sh[::step][:(6 if tier == "quick" else 24)]
+
     function = "construct_array_contraction of every module + GeneralizedContractionShell.assign_norm_cont"
 
     def shapes(self, tier):
